@@ -506,6 +506,81 @@ def m_rb_decr(e, st, a, I):
     return y
 
 
+def m_rb_erase(e, st, a, I):
+    """_Rb_tree_rebalance_for_erase(z, header) without rebalancing (plain BST removal); returns z"""
+    z, h = a
+
+    def same(u, v):
+        return u.obj == v.obj and u.off == v.off
+
+    def L(n):
+        return e.load(st, P(n, 16), PTR)
+
+    def R(n):
+        return e.load(st, P(n, 24), PTR)
+
+    def PAR(n):
+        return e.load(st, P(n, 8), PTR)
+
+    def setL(n, v):
+        e.store(st, P(n, 16), v, PTR)
+
+    def setR(n, v):
+        e.store(st, P(n, 24), v, PTR)
+
+    def setP(n, v):
+        e.store(st, P(n, 8), v, PTR)
+
+    def transplant(u, v):
+        up = PAR(u)
+        if same(PAR(h), u):
+            setP(h, v)
+        elif same(L(up), u):
+            setL(up, v)
+        else:
+            setR(up, v)
+        if v.obj != 0:
+            setP(v, up)
+
+    zl, zr, zp = L(z), R(z), PAR(z)
+    leftmost, rightmost = L(h), R(h)
+    if zl.obj != 0 and zr.obj != 0:
+        y = zr
+        while L(y).obj != 0:
+            y = L(y)
+        if not same(y, zr):
+            x = R(y)
+            yp = PAR(y)
+            setL(yp, x)
+            if x.obj != 0:
+                setP(x, yp)
+            setR(y, zr)
+            setP(zr, y)
+        transplant(z, y)
+        setL(y, zl)
+        setP(zl, y)
+        return z
+    x = zr if zl.obj == 0 else zl
+    transplant(z, x)
+    if same(leftmost, z):
+        if zr.obj == 0:
+            setL(h, zp)
+        else:
+            m = x
+            while L(m).obj != 0:
+                m = L(m)
+            setL(h, m)
+    if same(rightmost, z):
+        if zl.obj == 0:
+            setR(h, zp)
+        else:
+            m = x
+            while R(m).obj != 0:
+                m = R(m)
+            setR(h, m)
+    return z
+
+
 # ---------------- hashtable policy
 PRIMES = [2, 3, 5, 7, 11, 13, 17, 19, 23, 29, 31, 37, 41, 43, 47, 53, 59, 61, 67, 71, 73, 79, 83, 89, 97, 103, 109, 113, 127, 137, 139, 149, 157, 167, 179, 193, 199, 211, 227, 241, 257, 277, 293, 313, 337, 359, 383, 409, 439, 467, 503, 541, 577, 619, 661, 709, 761, 823, 887, 953, 1031, 1109, 1193, 1289, 1381, 1493, 1613, 1741, 1879, 2029, 2179, 2357, 2549, 2753, 2971, 3209, 3469, 3739, 4027, 4349, 4703, 5087, 5503, 5953, 6427, 6949, 7517, 8123, 8783, 9497, 10273, 11113, 12011, 12983, 14033, 15173, 16411, 17749, 19183, 20753, 22447, 24281, 26267, 28411, 30727, 33223, 35933, 38873, 42043, 45481, 49201, 53201, 57557, 62233, 67307, 72817, 78779, 85229, 92203, 99733]
 
@@ -802,6 +877,86 @@ def m_out_reset(e, st, a, I):
     st.outpos = None
 
 
+def m_out_truncate(e, st, a, I):
+    del st.out[a[0]:]
+    st.outpos = None
+
+
+def m_out_read(e, st, a, I):
+    dst, pos, n = a
+    if pos + n > len(st.out):
+        raise e.violation(st, "harness: sym_out_read beyond the written output", aid="harness")
+    put_cells(e, st, dst, list(st.out[pos:pos + n]))
+
+
+def m_out_write(e, st, a, I):
+    src, pos, n = a
+    cs = cells(e, st, src, n)
+    if pos + n > len(st.out):
+        st.out.extend([0] * (pos + n - len(st.out)))
+    st.out[pos:pos + n] = cs
+
+
+def m_snapshot(e, st, a, I):
+    """remember the bytes of every object reachable from [p, p+n) (deep snapshot)"""
+    p, n = a
+    objs = reachable(e, st, p, n)
+    snap = {"root": (p.obj, p.off, n, list(e.get_obj_r(st, p.obj).data[p.off:p.off + n])), "objs": {}}
+    for oid in objs:
+        o = e.get_obj_r(st, oid)
+        snap["objs"][oid] = (o.size, list(o.data), o.freed)
+    lst = st.user.setdefault("_snaps", [])
+    lst = list(lst)
+    lst.append(snap)
+    st.user["_snaps"] = lst
+    return len(lst) - 1
+
+
+def _cells_equal(x, y):
+    conds = []
+    for c, d in zip(x, y):
+        if c is d:
+            continue
+        if type(c) is int and type(d) is int:
+            if c != d:
+                return None
+            continue
+        if type(c) is tuple and type(d) is tuple and c[0] == d[0] and c[1] is d[1] and c[2] == d[2]:
+            continue
+        pc_, pd = type(c) is tuple and c[0] == "p", type(d) is tuple and d[0] == "p"
+        if pc_ or pd:
+            if pc_ and pd and isinstance(c[1], Ptr) and isinstance(d[1], Ptr) and c[1].obj == d[1].obj and c[2] == d[2] \
+                    and not is_sym(c[1].off) and not is_sym(d[1].off) and c[1].off == d[1].off:
+                continue
+            return None
+        conds.append(cell_bv(c) == cell_bv(d))
+    return conds
+
+
+def m_unchanged(e, st, a, I):
+    """true iff every object captured by the snapshot still exists with identical bytes"""
+    snap = st.user["_snaps"][a[0]]
+    conds = []
+    oid, off, n, data = snap["root"]
+    o = e.get_obj_r(st, oid)
+    r = _cells_equal(data, o.data[off:off + n])
+    if r is None:
+        e.stats["unchanged_diff"] = "root object differs"
+        return 0
+    conds += r
+    for oid, (size, data, freed) in snap["objs"].items():
+        o = e.get_obj_r(st, oid)
+        if o is None or o.freed != freed or o.size != size:
+            return 0
+        r = _cells_equal(data, o.data)
+        if r is None:
+            return 0
+        conds += r
+    if not conds:
+        return 1
+    return z3.And(*conds)
+
+
 def m_out_clear(e, st, a, I):
     st.out = []
     st.outpos = None
@@ -941,7 +1096,8 @@ M3 = {
     "__cxa_guard_acquire": m_guard_acquire, "__cxa_guard_release": m_guard_release, "clock": m_ret0,
     "_ZSt29_Rb_tree_insert_and_rebalancebPSt18_Rb_tree_node_baseS0_RS_": m_rb_insert,
     "_ZSt18_Rb_tree_incrementPSt18_Rb_tree_node_base": m_rb_incr, "_ZSt18_Rb_tree_incrementPKSt18_Rb_tree_node_base": m_rb_incr,
-    "_ZSt18_Rb_tree_decrementPSt18_Rb_tree_node_base": m_rb_decr,
+    "_ZSt18_Rb_tree_decrementPSt18_Rb_tree_node_base": m_rb_decr, "_ZSt18_Rb_tree_decrementPKSt18_Rb_tree_node_base": m_rb_decr,
+    "_ZSt28_Rb_tree_rebalance_for_erasePSt18_Rb_tree_node_baseRS_": m_rb_erase,
     "_ZNKSt8__detail20_Prime_rehash_policy11_M_next_bktEm": m_next_bkt,
     "_ZNKSt8__detail20_Prime_rehash_policy14_M_need_rehashEmmm": m_need_rehash,
     "_ZSt11_Hash_bytesPKvmm": m_hash_bytes,
@@ -988,7 +1144,8 @@ ALL.update(M2)
 ALL.update(M3)
 ALL.update({
     "nifly_verif_ref_hook": m_ref_hook, "nifly_verif_str_hook": m_str_hook,
-    "sym_note": m_user_note, "sym_reach": m_reach2, "sym_out_clear": m_out_clear,
+    "sym_note": m_user_note, "sym_out_truncate": m_out_truncate, "sym_out_read": m_out_read, "sym_out_write": m_out_write,
+    "sym_snapshot": m_snapshot, "sym_unchanged": m_unchanged, "sym_reach": m_reach2, "sym_out_clear": m_out_clear,
     "_ZNSo3putEc": m_put,
 })
 
